@@ -1222,7 +1222,7 @@ def smt_time(js):
         return {}
 
 
-def run_unit(tpl, workdir, seed=None):
+def run_unit(tpl, workdir, seed=None, known_labels=()):
     """Full unit run. -> result dict with status in ok|fail|undecided"""
     name = os.path.splitext(os.path.basename(tpl))[0]
     out = os.path.join(workdir, name.replace('-', '_') + '.rs')
@@ -1234,7 +1234,8 @@ def run_unit(tpl, workdir, seed=None):
     res = run_verus(gen, seed=seed)
     cl = classify(gen, res)
     retried = False
-    if cl['status'] in ('fail', 'rlimit'):
+    only_known = cl['status'] == 'fail' and all(f['labels'] and all(l in known_labels for l in f['labels']) for f in cl.get('failures', []))
+    if cl['status'] in ('fail', 'rlimit') and not only_known:
         # retry once with doubled rlimit and another seed
         res2 = run_verus(gen, rlimit=20, seed=(seed or 0) + 7)
         cl2 = classify(gen, res2)
